@@ -10,7 +10,7 @@ examination.
 
 from collections import defaultdict
 from string import Formatter
-from typing import Any, Dict, Optional
+from typing import Any, Dict, Optional, cast
 
 from ._interfaces import LogEvent
 
@@ -61,6 +61,19 @@ class KeyFlattener:
         return result
 
 
+def _textFormat(logFormat: Any) -> str:
+    """
+    L{formatEvent} accepts UTF-8 L{bytes} as a format; so does flattening.
+
+    @param logFormat: The C{"log_format"} of an event.
+
+    @return: The format as text.
+    """
+    if isinstance(logFormat, bytes):
+        return logFormat.decode("utf-8")
+    return cast(str, logFormat)
+
+
 def flattenEvent(event: LogEvent) -> None:
     """
     Flatten the given event by pre-associating format fields with specific
@@ -80,7 +93,7 @@ def flattenEvent(event: LogEvent) -> None:
     keyFlattener = KeyFlattener()
 
     for literalText, fieldName, formatSpec, conversion in aFormatter.parse(
-        event["log_format"]
+        _textFormat(event["log_format"])
     ):
         if fieldName is None:
             continue
@@ -171,7 +184,7 @@ def flatFormat(event: LogEvent) -> str:
     s = []
 
     for literalText, fieldName, formatSpec, conversion in aFormatter.parse(
-        event["log_format"]
+        _textFormat(event["log_format"])
     ):
         s.append(literalText)
 
